@@ -12,6 +12,8 @@ import (
 	"sync"
 	"testing"
 	"time"
+	"unicode/utf16"
+	"unicode/utf8"
 
 	"gopkg.in/yaml.v3"
 
@@ -101,7 +103,27 @@ func c10Doc(t *rapid.T) ([]byte, string) {
 			cmds[i].Command = rapid.SampledFrom([]string{"a\x00b", "\x00", "kill\x00all", "x\xffy", "\x1b[0m"}).Draw(t, "hc") + cmds[i].Command
 			cmds[i].Description += rapid.SampledFrom([]string{"\x00", " \x00 tail", ""}).Draw(t, "hd")
 		}
-		return gen.EmitYAML(cmds), kind
+		doc := gen.EmitYAML(cmds)
+		if utf8.Valid(doc) {
+			// YAML streams may be UTF-8 with a byte order mark, or UTF-16 (either byte order) behind one
+			switch rapid.IntRange(0, 9).Draw(t, "encoding") {
+			case 0:
+				doc = append([]byte("\xef\xbb\xbf"), doc...)
+			case 1, 2:
+				le := rapid.Bool().Draw(t, "little-endian")
+				u := utf16.Encode([]rune("\ufeff" + string(doc)))
+				out := make([]byte, 0, 2*len(u))
+				for _, x := range u {
+					if le {
+						out = append(out, byte(x), byte(x>>8))
+					} else {
+						out = append(out, byte(x>>8), byte(x))
+					}
+				}
+				doc = out
+			}
+		}
+		return doc, kind
 	case "entries", "damaged":
 		var b strings.Builder
 		if rapid.IntRange(0, 9).Draw(t, "bom") == 0 {
